@@ -169,7 +169,8 @@ def check(crate):
     b = find("Bvf<I, N>::capacity")
     if b is not None:
         r = b.return_expr()
-        ok = is_bin(r, "Mul") and r[3] == ("cparam", "N") and is_bin(r[2], "Mul") and _size_of(r[2][2]) and r[2][3] == ("int", 8)
+        ok = is_bin(r, "Mul") and r[3] == ("cparam", "N") and (
+            (is_bin(r[2], "Mul") and _size_of(r[2][2]) and r[2][3] == ("int", 8)) or (r[2][0] == "assoc" and r[2][1] == "BIT_UNIT"))
         add(b, "Bvf::capacity", ok, "capacity() = size_of::<I>() * 8 * N", "capacity() returns %s" % show(r))
     b = find("<Bvf<I, N> as BitVector>::capacity")
     if b is not None:
@@ -255,7 +256,7 @@ def check(crate):
             if mult == 1:
                 ok = _size_of(r)
             else:
-                ok = (is_bin(r, "Mul") and _size_of(r[2]) and r[3] == ("int", mult)) or \
+                ok = (is_bin(r, "Mul") and (_size_of(r[2]) or (r[2][0] == "assoc" and r[2][1] == "BYTE_UNIT")) and r[3] == ("int", mult)) or \
                      (fam == "Bvd" and name == "BIT_UNIT" and r[0] == "assoc" and r[1] == "BITS")
             add(b, "%s::%s" % (pre, name), ok, "%s = size_of::<word>() * %d" % (name, mult), "%s = %s" % (name, show(b.return_expr())))
     for ty, w in WIDTH.items():
